@@ -309,6 +309,14 @@ def run(repo, chk):
     if chk.__class__.__name__ == 'Check':
         from . import c06
         c06.run(repo, Remap(chk, {'C06.V1': 'C03.J9'}))
+        # ... and the try that averts them is still there after typechecking (shared with C02.T11)
+        chk.rule('C03.J10', 'a try block with a defeat call anywhere in its body keeps its handler through typechecking (shared with '
+                            'C02.T11); index guards that keep stores inside their arrays are emitted (shared with C05.G3/G5)')
+        c02.try_blocks_kept(repo, chk, 'C03.J10')
+        # a store through an unchecked index can overwrite a return address, after which `j [ra]` lands anywhere (on a bare halt
+        # of the prologue, for instance): the index guards of every element access (shared with C05.G4)
+        from . import c05
+        c05.run(repo, Remap(chk, {'C05.G4': lambda c: 'C03.J10' if c.startswith(('array_lookup', 'array_assignment', 'check_index')) else None}))
     chk.sample({'jump_site_forms': {s: sorted(f) for s, f in list(sorted(site_forms.items()))[:10]}})
     chk.sample({'stdlib_jump_roles': [f'{at.ins[i]} -> {r[0]}' for i, r in list(sorted(tf.jumps.items()))[:8]]})
     chk.not_decided = ['the VM implementation of the Turing jump', 'behaviour excluded by the property (UB)']
